@@ -884,8 +884,10 @@ func (t *Terminal) readLine() (line []string, err error) {
 		t.outBuf = t.outBuf[:0]
 		if lineOk {
 			if t.echo {
+				// an Enter that hands nothing over (an empty line) ends a look
+				// into the history as well
+				t.historyIndex = -1
 				for _, l := range line {
-					t.historyIndex = -1
 					t.history.Add(l)
 				}
 			}
